@@ -353,4 +353,28 @@ example : randombytes (some 7) [.readBytes [1, 2, 3, 4]] 2 =
 example : (readLoop 7 [.readBytes [9]] [] 0 (1048576 + 5)).log =
     [.read 7 0 1048576 1, .readNoAns 7 1 1048576] := by decide
 
+/-! ## error codes -/
+
+/-- **errno_irrelevant.**  Two environments whose answers return the same values make every call of any sequence behave
+    identically — same call log, same buffer, same unconsumed answers, same descriptor — whatever error codes the failing (or
+    succeeding) answers leave in `errno` and whatever the interrupted `sleep`s return.  (By construction of `runCallsA`: the
+    code never reads `errno`; the correspondence stream checks the real code against it with every errno of its set.) -/
+theorem errno_irrelevant (fd0 : Option Nat) (s s' : List Answer) (xlens : List Nat)
+    (h : forget s = forget s') : runCallsA fd0 s xlens = runCallsA fd0 s' xlens := by
+  simp [runCallsA, h]
+
+/-- **open_once, for every error code.**  At most one successful `open` over any sequence of calls, whatever errno each
+    failing answer carries — in particular a `read` failing with EBADF (9) does not make the code open the device again. -/
+theorem open_once_any_errno (fd0 : Option Nat) (s : List Answer) (xlens : List Nat) :
+    ((allLog (runCallsA fd0 s xlens)).filter isOpenOk).length ≤ 1 :=
+  open_once_count fd0 (forget s) xlens
+
+/-- the history on which the seeded reopen-on-EBADF variant opens twice: one `open`, the failed read retried on the same descriptor -/
+example : allLog (runCallsA none [{ out := .openOk 3 }, { out := .readErr, errno := 9, sleepRet := 1 }, { out := .readBytes [7, 8] }] [2]) =
+    [.open (some 3), .read 3 0 2 (-1), .sleep 1, .read 3 0 2 2] := by decide
+
+/-- non-vacuity of `errno_irrelevant`: EBADF/interrupted sleep against EINTR/full sleep -/
+example : forget [{ out := .openFail, errno := 24 }, { out := .openOk 0 }, { out := .readErr, errno := 9, sleepRet := 1 }] =
+    forget [{ out := .openFail, errno := 2, sleepRet := 1 }, { out := .openOk 0, errno := 4 }, { out := .readErr, errno := 4 }] := by decide
+
 end Nfl.C19
